@@ -50,11 +50,14 @@ const (
 	clVn // variant letters without recursion
 	clVr // variant recursion letters
 	clVp // probes that follow a recursion
+	// atomic classes: T = atomic out-of-bounds trap kinds in every shape, O = okatomic in every shape
+	clT
+	clO
 	nClasses
 	nBaseClasses = clVn
 )
 
-var className = [nClasses]string{"K", "r0", "N", "R", "Vn", "Vr", "Vp"}
+var className = [nClasses]string{"K", "r0", "N", "R", "Vn", "Vr", "Vp", "T", "O"}
 
 // Context variants: every step of a word is called with its own cancellable context ("cancel") or its own
 // context with a generous deadline ("deadline"), which the harness cancels after the step has returned; or
@@ -90,6 +93,10 @@ func init() {
 	for _, l := range fullAlphabet {
 		switch {
 		case isCore[l]:
+		case isAOOB(l.Kind):
+			classes[clT] = append(classes[clT], l)
+		case l.Kind == KOkAtomic:
+			classes[clO] = append(classes[clO], l)
 		case isRec(l.Kind):
 			classes[clR] = append(classes[clR], l)
 		default:
@@ -104,7 +111,7 @@ func init() {
 	vShapes := []int{ShDirectA, ShIndirectA, ShHost1P, ShHost5P, ShHost1C, ShHost5CO, ShStartSecA, ShStartFnA, ShDirectB, ShViaB, ShHost1PB}
 	for _, sh := range vShapes {
 		for k := 0; k < NKinds; k++ {
-			if (shapes[sh].target == 'B' && k >= NBKinds) || k >= KProcExit0 {
+			if (shapes[sh].target == 'B' && k >= NBKinds) || k >= KProcExit0 || isAOOB(k) || k == KOkAtomic {
 				continue
 			}
 			switch {
@@ -275,6 +282,16 @@ func sectionsFor(tier string) (secs []section, excludedByCap int64) {
 			secs = append(secs, s)
 		}
 	}
+	// atomic sections: a lock / waiter list held across the unwinding of an atomic instruction only shows
+	// when a later atomic access of the same memory does not return: every atomic out-of-bounds trap in every
+	// shape, alone, followed by and preceded by okatomic in every shape.
+	at := [][]int{{clT}, {clO}, {clT, clO}, {clO, clT}}
+	if tier == "thorough" {
+		at = append(at, []int{clK, clT, clO}, []int{clT, clK, clO})
+	}
+	for _, t := range at {
+		secs = append(secs, section{tuple: t, count: size(t), batch: 1024})
+	}
 	// heavy (recursion) sections first so that they are spread over all workers before the light tail
 	sort.SliceStable(secs, func(i, j int) bool { return secs[i].recs() > secs[j].recs() })
 	return
@@ -360,7 +377,77 @@ type viol struct {
 // runWord executes the word on a fresh world of e and on a fresh model; returns the observed trace
 // and the first divergence from the model (nil if none). The trace continues after a divergence
 // is found? No: it stops there, later steps are judged on other words.
-func runWord(e *engineRT, word []letter, mode string, stats *childStats) (trace []stepObs, v *viol) {
+// hangTimeout: a conforming step takes microseconds (a recursion ~0.1 s); a step that has not returned after
+// 30 s does not return (e.g. it waits for a lock that an earlier, trapped instruction never released).
+const hangTimeout = 30 * time.Second
+
+var childHangs int // steps that did not return, in this process
+
+var wordWorker chan func()
+
+// runWord executes the word on a fresh world of e and on a fresh model; returns the observed trace and the
+// first divergence from the model (nil if none). The word runs on its own goroutine; the caller's goroutine is
+// the per-word watchdog: if no step completes for hangTimeout the word is abandoned (hung=true: the world and
+// the runtime of e must not be used any more) and the hang is attributed to the step in flight.
+func runWord(e *engineRT, word []letter, mode string, stats *childStats) (trace []stepObs, v *viol, hung bool) {
+	type result struct {
+		trace []stepObs
+		v     *viol
+	}
+	progress := make(chan int, len(word)+2)
+	done := make(chan result, 1)
+	// One long-lived worker goroutine executes all words (its Go stack stays grown: the interpreter
+	// recurses on it); it is replaced only after a hang, when it is stuck for good.
+	if wordWorker == nil {
+		wordWorker = make(chan func(), 1)
+		go func(jobs chan func()) {
+			for f := range jobs {
+				f()
+			}
+		}(wordWorker)
+	}
+	wordWorker <- func() {
+		tr, v := runWordSteps(e, word, mode, stats, progress)
+		done <- result{tr, v}
+	}
+	timer := time.NewTimer(hangTimeout)
+	defer timer.Stop()
+	at := 0 // index of the step in flight
+	for {
+		select {
+		case r := <-done:
+			return r.trace, r.v, false
+		case at = <-progress:
+			if !timer.Stop() {
+				select {
+				case <-timer.C:
+				default:
+				}
+			}
+			timer.Reset(hangTimeout)
+		case <-timer.C:
+			childHangs++
+			wordWorker = nil // stuck inside the step; the next word gets a new worker
+			tag := e.name
+			if mode != "" {
+				tag += "+ctx-" + mode
+			}
+			what := "cancel-shared-context-after-last-step"
+			if at < len(word) {
+				what = word[at].String()
+			}
+			sig := fmt.Sprintf("%s:%s:hang", tag, what)
+			if at > 0 {
+				sig += ":after=" + word[at-1].String()
+			}
+			return nil, &viol{Sig: sig, Word: wordString(word), Ctx: mode,
+				What: fmt.Sprintf("%s: word [%s] step %d (%s) has not returned after %v", tag, wordString(word), at+1, what, hangTimeout)}, true
+		}
+	}
+}
+
+// runWordSteps is the body of runWord; it reports the index of the step it is about to start on progress.
+func runWordSteps(e *engineRT, word []letter, mode string, stats *childStats, progress chan<- int) (trace []stepObs, v *viol) {
 	w := newWorld(e)
 	defer w.close()
 	m := &modelW{}
@@ -387,6 +474,7 @@ func runWord(e *engineRT, word []letter, mode string, stats *childStats) (trace 
 			What: fmt.Sprintf("%s: word [%s] step %d (%s, k=%d): implementation {%s} but the reference model says {%s}", tag, wordString(word), i+1, what, i+1, got, want)}
 	}
 	for i, l := range word {
+		progress <- i
 		k := uint32(i + 1)
 		var cancel context.CancelFunc
 		switch mode {
@@ -415,6 +503,7 @@ func runWord(e *engineRT, word []letter, mode string, stats *childStats) (trace 
 		}
 	}
 	if sharedCancel != nil {
+		progress <- len(word)
 		w.settle()
 		sharedCancel()
 		w.settle()
@@ -471,7 +560,9 @@ type batchResult struct {
 	Viols      []viol           `json:"v,omitempty"`
 }
 
-func failing(l letter) bool { return l.Kind != KOk && l.Kind != KDeepOk && l.Kind != KDeepHost }
+func failing(l letter) bool {
+	return l.Kind != KOk && l.Kind != KDeepOk && l.Kind != KDeepHost && l.Kind != KOkAtomic
+}
 
 
 func hasDeepHost(w []letter) bool {
@@ -509,13 +600,20 @@ func runBatch(sp *space, sec int, lo, hi int64, pass string) batchResult {
 		}
 		var traces [][]stepObs
 		bad := false
-		for _, e := range rts {
-			tr, v := runWord(e, word, mode, st)
+		for i, e := range rts {
+			tr, v, hung := runWord(e, word, mode, st)
 			traces = append(traces, tr)
 			if v != nil {
 				viols = append(viols, *v)
 				bad = true
 			}
+			if hung {
+				// the world is stuck with the names A and B registered: abandon this runtime
+				rts[i] = newEngineRT(e.name, e.term)
+			}
+		}
+		if childHangs >= 2 {
+			break // each further hang costs the watchdog; two are enough to report, the child skips the rest
 		}
 		if !bad {
 			// differential twin: the whole trace must be equal across the engines
@@ -591,7 +689,7 @@ func main() {
 		deadline, _ := strconv.ParseInt(os.Getenv("C06_DEADLINE"), 10, 64)
 		found := 0
 		fw.ChildLoop(func(i int) string {
-			if (deadline > 0 && time.Now().Unix() > deadline) || found >= 40 {
+			if (deadline > 0 && time.Now().Unix() > deadline) || found >= 40 || childHangs >= 2 {
 				return "skipped"
 			}
 			c := sp.cases[i]
@@ -729,7 +827,7 @@ func main() {
 		Samples: samples.List(), Exhaustive: true, Outcomes: outcomes.Map(),
 		Bounds: map[string]any{"full_alphabet": len(fullAlphabet), "core_alphabet": coreNames, "shapes": NShapes, "kinds": NKinds,
 			"class_sizes": map[string]int{"K": len(classes[clK]), "r0": len(classes[clR0]), "N": len(classes[clN]), "R": len(classes[clR]),
-				"Vn": len(classes[clVn]), "Vr": len(classes[clVr]), "Vp": len(classes[clVp])},
+				"Vn": len(classes[clVn]), "Vr": len(classes[clVr]), "Vp": len(classes[clVp]), "T": len(classes[clT]), "O": len(classes[clO])},
 			"context_variants": ctxModes,
 			"sections": secs, "max_recursion_letters_per_word": maxRecPerWord, "engines": engines},
 		Extra: map[string]any{"words_excluded_by_recursion_cap": sp.excludedByCap, "words_run": words,
@@ -740,6 +838,7 @@ func main() {
 		"host functions re-raise a nested failure with panic(err); a level that swallows it returns a class code to the guest",
 		"runtimes are created per batch of words (24 with recursion, 1024 otherwise; compilation is the dominant cost); instances A and B are fresh for every word",
 		"context variants: a step's context is cancelled after the step returned and after waiting (goroutine count back to its value at world creation, at most 50 ms) for stopped watchers to exit; the wait is never a verdict; kinds that close an instance are not part of the variant alphabet",
+		"a step that has not returned after 30 s is reported as a hang of that step (per-word watchdog in the child); conforming steps take microseconds, a recursion about 0.1 s",
 		"words with a deephost letter run with GODEBUG=clobberfree=1 (use of a freed outgrown stack becomes a crash); all other words run without it",
 	})
 }
@@ -791,7 +890,7 @@ func replay() {
 	var traces [][]stepObs
 	for _, n := range engines {
 		e := newEngineRT(n, doc.Replay.Ctx != "")
-		tr, v := runWord(e, word, doc.Replay.Ctx, nil)
+		tr, v, _ := runWord(e, word, doc.Replay.Ctx, nil)
 		traces = append(traces, tr)
 		for i, o := range tr {
 			what := "(cancel shared context)"
@@ -845,7 +944,7 @@ func bench() {
 			t0 = time.Now()
 			reps := 20
 			for i := 0; i < reps; i++ {
-				_, v := runWord(e, word, os.Getenv("C06_CTX"), nil)
+				_, v, _ := runWord(e, word, os.Getenv("C06_CTX"), nil)
 				if v != nil {
 					fmt.Println(v.What)
 					break
